@@ -38,8 +38,8 @@ RULE = ("one case = one generated network (netgen profiles + perturbed pandapowe
         "random runpp option vector; non-trivial = run_timeseries and the manual loop both completed and >= 1 logged cell "
         "changes over the steps; distinct = digest of net + controllers + log variables + options")
 ASSUMPTIONS = ["fresh reference power flows use the same runpp options as run_timeseries (tolerance_mva 1e-8, NR)",
-               "tolerances: vm 1e-6 pu, va 1e-4 deg, loading 1e-4 %, currents 1e-6 kA, powers 1e-5 MVA, each + 1e-6 relative "
-               "(measured noise of recycled vs fresh solutions <= 1e-8 relative)",
+               "tolerances: vm 1e-6 pu, va 1e-4 deg; loading 1e-4 %, currents 1e-6 kA, powers 1e-5 MVA, each + 1e-4 relative "
+               "(largest measured noise of a recycled vs a fresh solution: 1.3e-5 relative in a branch current)",
                "cases whose manual loop does not converge at some step are skipped (run_timeseries may legitimately raise)",
                "networks have contiguous element indices, so positional and label addressing of output columns coincide"]
 
@@ -70,15 +70,18 @@ EVALS = {"max": np.max, "min": np.min, "sum": np.sum, "nanmax": np.nanmax, "mean
 
 
 def _tol(var):
-    if var.startswith("vm") or var == "vm_pu":
-        return 1e-6, 1e-6
+    """(atol, rtol).  Recycled steps start from the previous solution and stop at the first iterate below tolerance_mva, fresh
+    ones overshoot it quadratically; in a low-impedance loop that residual showed up as 1.3e-5 relative in a branch current
+    (seed 2, case 359), hence 1e-4 relative for branch / power quantities; voltages keep the absolute bound."""
+    if var.startswith("vm"):
+        return 1e-6, 0.0
     if var.startswith("va"):
         return 1e-4, 1e-6
     if "loading" in var:
-        return 1e-4, 1e-6
+        return 1e-4, 1e-4
     if var.startswith("i_"):
-        return 1e-6, 1e-6
-    return 1e-5, 1e-6
+        return 1e-6, 1e-4
+    return 1e-5, 1e-4
 
 
 def corpus_net(g):
@@ -396,6 +399,19 @@ def classify_values(bad, req, base, ctrls, time_steps, kw, ow, all_rec, rec_traf
     return None
 
 
+def _pf_bypassed(base, kw):
+    """(classification only) the power flow of this net stores no internal model"""
+    chk = copy.deepcopy(base)
+    st, _ = pf.try_run(pp.runpp, chk, **{k: v for k, v in kw.items() if k != "recycle"})
+    return st == "ok" and "baseMVA" not in (chk._ppc or {}).get("internal", {})
+
+
+def _mask_excess(exc):
+    import re
+    m = re.search(r"size of axis is (\d+) but size of corresponding boolean axis is (\d+)", str(exc))
+    return int(m.group(2)) - int(m.group(1)) if m else None
+
+
 def _tb_functions(exc):
     names, seen = set(), set()
     while exc is not None and id(exc) not in seen:     # run_time_step re-raises a bare exception class: follow the context
@@ -499,11 +515,14 @@ def run_case(seed, tier, case_no):
         frames = _tb_functions(exc)
         if pred and type(exc).__name__ == pred[0] and exc.args and exc.args[0] == pred[1] and "get_batch_outputs" in frames:
             mech = pred[2]
+        elif eligible and isinstance(exc, KeyError) and exc.args == ("baseMVA",) and "v_to_i_s" in frames and _pf_bypassed(base, kw):
+            # no PQ / PV bus is energized: runpp takes _bypass_pf_and_set_results, which stores no internal model; the ppc
+            # logger fails silently every step and the batch reader then finds no baseMVA / Yf
+            mech = "batch_read_after_bypassed_power_flow"
         elif (isinstance(exc, IndexError) and len(net.dcline) and all_rec and len(time_steps) > 1
-              and "_recycled_powerflow" in frames and frames & {"_build_gen_lookups", "_build_pp_gen"}
-              and "boolean index did not match" in str(exc)):
-            # the recycled power flow skips _add_auxiliary_elements: the cached in-service mask still counts the two
-            # auxiliary generators per dcline that _clean_up removed after the first step
+              and "_recycled_powerflow" in frames and _mask_excess(exc) == 2 * len(net.dcline)):
+            # the recycled power flow skips _add_auxiliary_elements: the cached in-service mask of net.gen still counts the two
+            # auxiliary generators per dcline that _clean_up removed after the first step (mask is 2 * n_dcline too long)
             mech = "recycle_with_dcline"
         elif (all_rec and "recycle_trafo" in tags and open_trafo_switch(base) and "_recycled_powerflow" in frames
               and (isinstance(exc, LoadflowNotConverged) or (isinstance(exc, IndexError) and "newtonpf" in frames))):
